@@ -56,6 +56,24 @@ struct it_vec_T bs_lower_bound(struct it_vec_T first, struct it_vec_T last, T x)
   __CPROVER_assigns()
 ;
 
+/* std::unique on a whole vector ([alg.unique]: from every group of consecutive equal elements all but the first are
+ * removed; returns the end of the resulting range; the elements behind it are unspecified).  Rendered with the ghost
+ * position map BS_POS (spec.h): BS_POS(l) is the position element l ends up at.  Assumed contract, stated at the ghost
+ * element indices gi, gi+1, at the first and last element, and (no equal neighbours remain) at the ghost position gw. */
+extern size_t gi, gw;
+size_t bs_unique_end;
+struct bs_pos_t { size_t p[BS_CAP]; } BS_POSS;
+#define BS_UQ_AT(l) (!((l) < BS_CAP && (l) < v.n) || (BS_POSS.p[l] < bs_unique_end && __CPROVER_return_value.d[BS_POSS.p[l]] == v.d[l]))
+#define BS_UQ_STEP(l) (!((l) < BS_CAP && (l) + 1 < v.n) || BS_POSS.p[(l) + 1] == BS_POSS.p[l] + (v.d[(l) + 1] != v.d[l] ? 1 : 0))
+struct vec_T bs_unique(struct vec_T v)
+  __CPROVER_requires(v.n <= BS_CAP)
+  __CPROVER_ensures(__CPROVER_return_value.n == v.n && bs_unique_end <= v.n)
+  __CPROVER_ensures(v.n == 0 ? bs_unique_end == 0 : (BS_POSS.p[0] == 0 && bs_unique_end == BS_POSS.p[v.n - 1] + 1))
+  __CPROVER_ensures(BS_UQ_AT(gi) && BS_UQ_AT(gi + 1) && BS_UQ_AT(gi + 2) && BS_UQ_STEP(gi) && BS_UQ_STEP(gi + 1))
+  __CPROVER_ensures(!(gw < BS_CAP && gw + 1 < bs_unique_end) || __CPROVER_return_value.d[gw] != __CPROVER_return_value.d[gw + 1])
+  __CPROVER_assigns(bs_unique_end)
+;
+
 /* std::make_shared<const std::vector<T>>(v): a fresh slot of the ghost heap */
 static inline struct sp_vec_T bs_make_shared_vec(struct vec_T v)
 {
